@@ -5,8 +5,8 @@ from lib import *
 import progen
 import runlib
 
-THEOREMS = ["Types.no_implicit_conversion", "Types.mismatch_is_E551", "Types.op_classes", "Types.allOTs_complete",
-            "Types.cast_classes", "Types.violation_rejected"]
+THEOREMS = ["Types.no_implicit_conversion", "Types.mismatch_is_E551", "Types.op_classes", "Types.allPrims_complete",
+            "Types.cast_classes", "Types.violation_rejected", "Types.pointer_mismatch", "Types.pointer_only_equality"]
 
 PRIMS = ["i8", "i16", "i32", "i64", "i128", "u8", "u16", "u32", "u64", "u128", "usize", "char8", "bool"]
 BIN = {"add": "+", "sub": "-", "mul": "*", "div": "/", "mod": "%", "and": "&", "or": "|", "xor": "^", "shl": "<<", "shr": ">>"}
@@ -41,6 +41,26 @@ def main():
                 cells.append(("cmp", "(bin %s %s %s)" % (op, l, r), src))
         src = "fn main()\n{\n\tvar x: i32 = 1;\n\tvar p: &i32 = &x;\n\tvar q: &i32 = &x;\n\tvar c: i32 = 0;\n\tif &p %s &q\n\t{\n\t\tc = 1;\n\t}\n}\n" % sym
         cells.append(("cmp-pointer", "(ptr %s)" % op, src))
+    # pointers keep their pointee type: every pair of pointee types, one and two levels deep
+    for op, sym in list(CMP.items()) + [("add", "+"), ("and", "&")]:
+        for l in PRIMS:
+            for r in PRIMS:
+                if op in CMP:
+                    use = "\tvar c: i32 = 0;\n\tif &a %s &b\n\t{\n\t\tc = 1;\n\t}\n" % sym
+                    use2 = "\tvar c: i32 = 0;\n\tif &&p %s &&q\n\t{\n\t\tc = 1;\n\t}\n" % sym
+                else:
+                    use = "\tvar c = &a %s &b;\n" % sym
+                    use2 = "\tvar c = &&p %s &&q;\n" % sym
+                src = "fn main()\n{\n\tvar a: %s = %s;\n\tvar b: %s = %s;\n%s}\n" % (l, lit(l), r, lit(r), use)
+                cells.append(("pointer-pair", "(bin %s (ptr %s) (ptr %s))" % (op, l, r), src))
+                if op in ("eq", "lt") and (l == r or (PRIMS.index(l) + PRIMS.index(r)) % 3 == 0):
+                    src = ("fn main()\n{\n\tvar a: %s = %s;\n\tvar b: %s = %s;\n\tvar p: &%s = &a;\n\tvar q: &%s = &b;\n%s}\n"
+                           % (l, lit(l), r, lit(r), l, r, use2))
+                    cells.append(("pointer-pair-2", "(bin %s (ptr (ptr %s)) (ptr (ptr %s)))" % (op, l, r), src))
+    for l in PRIMS:
+        # a pointer against its own pointee type
+        src = "fn main()\n{\n\tvar a: %s = %s;\n\tvar b: %s = %s;\n\tvar c: i32 = 0;\n\tif &a == b\n\t{\n\t\tc = 1;\n\t}\n}\n" % (l, lit(l), l, lit(l))
+        cells.append(("pointer-vs-value", "(bin eq (ptr %s) %s)" % (l, l), src))
     for t in PRIMS:
         cells.append(("un", "(un neg %s)" % t, "fn main()\n{\n\tvar a: %s = %s;\n\tvar c = -a;\n}\n" % (t, lit(t))))
         cells.append(("un", "(un compl %s)" % t, "fn main()\n{\n\tvar a: %s = %s;\n\tvar c = !a;\n}\n" % (t, lit(t))))
@@ -96,7 +116,8 @@ def main():
     rep.coverage.update({
         "evaluations": total, "distinct_nontrivial": total,
         "rule": "exhaustive operator x type matrices: 10 binary operators x 13 x 13 primitive operand types, 6 comparisons x "
-                "13 x 13 and on pointers, 2 unary operators x 13, all 13 x 13 casts (each cell a small program; verdict and code "
+                "13 x 13, 6 comparisons and 2 binary operators on pointers to every pair of pointee types (one and two levels), a "
+                "pointer against its pointee type, 2 unary operators x 13, all 13 x 13 casts (each cell a small program; verdict and code "
                 "vs the Lean tables); plus well-typed generated programs with one type-breaking edit (declared type changed, "
                 "literal of another type, bool/int confusion, wrong argument type, missing/extra argument, wrong return type, "
                 "unsigned negation, signed bitwise): the original must be accepted, the mutant rejected with a typing code",
